@@ -467,9 +467,22 @@ func c05Record(rng *Rng, cfg *c05Config, k *c05GKey, node int, breach int, tpl [
 	if rng.Intn(8) == 0 {
 		step = uint32(rng.Intn(100000))+1
 	}
+	// gaps around 2^31 seconds and up to the top of the uint32 range (signed-comparison mistakes)
+	big := uint32(0)
+	if rng.Intn(9) == 0 {
+		big = uint32(1<<31) - 2 + uint32(rng.Intn(5))
+		if rng.Intn(3) == 0 {
+			big = uint32(1<<31) + uint32(rng.Intn(1<<30))
+		}
+	}
 	end := nd.end + step
 	if nd.n == 0 {
 		end = k.start + 1 + uint32(rng.Intn(20))
+		if big != 0 && uint64(k.start)+uint64(big) <= 0xFFFFFFFF {
+			end = k.start + big
+		}
+	} else if big != 0 && uint64(nd.end)+uint64(big) <= 0xFFFFFFFF {
+		end = nd.end + big
 	}
 	start := k.start
 	flowType := k.flowType
